@@ -40,7 +40,16 @@ func (m *ModSet) union(o *ModSet) {
 		m.maps[k] = v
 	}
 	for k, v := range o.sites {
-		m.sites[k] = append(m.sites[k], v...)
+		have := map[string]bool{}
+		for _, x := range m.sites[k] {
+			have[x] = true
+		}
+		for _, x := range v {
+			if !have[x] {
+				have[x] = true
+				m.sites[k] = append(m.sites[k], x)
+			}
+		}
 	}
 	for k := range o.unknown {
 		m.unknown[k] = true
@@ -140,7 +149,15 @@ func (p *Prog) ModSetOf(f *ssa.Function) *ModSet {
 }
 
 func (p *Prog) computeModSet(f *ssa.Function, ms *ModSet, visiting map[*ssa.Function]bool) {
-	if f.Blocks == nil {
+	inPprof := f.Pkg != nil && strings.HasPrefix(f.Pkg.Pkg.Path(), modPath)
+	if f.Parent() != nil {
+		for q := f.Parent(); q != nil; q = q.Parent() {
+			if q.Pkg != nil && strings.HasPrefix(q.Pkg.Pkg.Path(), modPath) {
+				inPprof = true
+			}
+		}
+	}
+	if f.Blocks == nil || !inPprof {
 		full := f.String()
 		if isPureExtern(full) {
 			ms.allocates = true
